@@ -53,6 +53,10 @@ def reader_content(chk, F, fs, rule, widths, why, kinds=("reader", "unary", "bit
     if "bitreader" in kinds:
         jobs += [("bitreader", rule, "bitreader")]
     rules_seq.run_parallel(chk, F, fs, jobs, widths=widths)
+    if "unary" in kinds:
+        import rules_c02u
+        rules_c02u.run_unbuffered(chk, F, "quick", rule + ".unary")
+        rules_c02u.run_buffered(chk, F, "quick", rule + ".unary")
 
 
 def writer_content(chk, F, fs, rule, widths, why):
